@@ -243,6 +243,9 @@ type TimingOpts struct {
 	CDNA3      bool
 	Resident   int   // work-groups mapped at once (1 or 2)
 	Delays     []int // delay alphabet for memory answers
+	// NoAddrAttribution turns off the per-wavefront attribution of data addresses (one dword per work-item in
+	// every buffer), which only the C14 kernels guarantee; generated programs may use other strides.
+	NoAddrAttribution bool
 }
 
 type taskHook struct{ f func(ctx sim.HookCtx) }
@@ -331,6 +334,9 @@ func RunTiming(x *explore.Exec, k *Kernel, g Geometry, o TimingOpts) (res *Resul
 
 	// which wavefront does a data address belong to? one dword per work-item in every buffer
 	wfOfAddr := func(a uint64) ([2]int, bool) {
+		if o.NoAddrAttribution {
+			return [2]int{}, false
+		}
 		for _, base := range []uint64{In, In2, Out, Out2, Tmp, Out3, Out4} {
 			lim := uint64(0x2000)
 			if base >= Out3 {
